@@ -347,7 +347,7 @@ func init() {
 		NeedMarks: []string{"waiter observed in-flight fetch", "block evicted and fetched again", "resize during fetch", "gomaxprocs 1", "gomaxprocs 16", "cache 0 blocks", "cache 1 blocks"},
 		Workers:   8,
 		CPUSec:    1800,
-		WallSec:   1500,
+		WallSec:   600,
 		Cases: func(seed int64, tier string) []core.Case {
 			r := gen.New(seed ^ 0xC17)
 			ncases, per, reads := 12, 4, 100
